@@ -13,6 +13,7 @@ from __future__ import annotations
 import json
 
 import common as C
+import re_probes as RP
 from props import dispcommon as D
 
 MANIFEST = {
@@ -179,6 +180,7 @@ def run(ctx, model=True):
         for sig, what in percall_fault_probe(pc["n_good"], pc["pos"], pc["mixed"]):
             res.violations.append(C.Violation(sig, "implementation-only probe: " + what, pc))
     res.notes.append("per-call subs with one callable that cannot be subscribed (unhashable) are probed on the implementation only")
+    RP.add_to(res, ["inplan-subscription", "equal-instances"])
     return res
 
 
@@ -187,6 +189,9 @@ def run_impl_only(ctx):
 
 
 def replay(ctx, data):
+    r = RP.replay(data)
+    if r is not None:
+        return r
     res = C.Result()
     case = data.get("case")
     if not case:
